@@ -92,6 +92,10 @@ def models(prop, tier):
          dict(module='ZkServerSet', cfg='ZkServerSet_d.cfg', env=full,
               what='repaired design: 3 node names carrying 2 data values (an instance registering again under a '
                    'new node name), history <= 7, path created <= 2x'),
+         dict(module='ZkServerSet', cfg='ZkServerSet_blk.cfg', env=full,
+              what='repaired design with BLOCKING consumer callbacks (the worker parked inside on_join / on_leave while '
+                   'the tree changes, action Return): 2 names, history <= 6, path created <= 2x, raising policy <= 1, '
+                   'blocking policy <= 1'),
          dict(module='ZkServerSet', cfg='ZkServerSet_b4.cfg', env=full,
               what='repaired design: 4 names, history <= 10, path created once (listings of up to 4 members: the '
                    'path can be reported gone while the worker has read some members of a listing and not yet the rest)')]
@@ -133,7 +137,7 @@ def _pick_names(n):
 class Driver(object):
   """Runs the real provider/ServerSet over FakeZK and records the C19 events."""
 
-  def __init__(self, loop, n_names, rj, rl, endpoint_name=None, nvalues=None):
+  def __init__(self, loop, n_names, rj, rl, endpoint_name=None, nvalues=None, bj=None, bl=None):
     import gevent
     from harness.simgevent.fakezk import FakeZK, member_blob
     from scales.loadbalancer.serverset import ZooKeeperServerSetProvider
@@ -145,6 +149,14 @@ class Driver(object):
     self.nvalues = nvalues or n_names
     self.rj = set(rj)
     self.rl = set(rl)
+    # blocking policy: on_join / on_leave for member value d blocks for ms milliseconds of virtual time
+    # (gevent.sleep), ms < 0: until the script releases it (op REL) or asks for quiescence (op Q)
+    self.bj = dict((int(d), int(ms)) for d, ms in (bj or []))
+    self.bl = dict((int(d), int(ms)) for d, ms in (bl or []))
+    self.blocked = 0          # consumer callbacks running (blocked) right now
+    self.blocks = 0           # how many callbacks blocked so far
+    self.cut_short = 0        # blocked callbacks that did not return normally (something was thrown into them)
+    self.gates = []
     self.ev = []
     self.blob = member_blob
     self.endpoint_name = endpoint_name
@@ -185,9 +197,38 @@ class Driver(object):
     except Exception:
       return UNKNOWN
 
+  def _block(self, table, d):
+    ms = table.get(d)
+    if ms is None:
+      return
+    import gevent
+    from gevent.event import Event
+    self.blocked += 1
+    self.blocks += 1
+    ok = False
+    try:
+      if ms < 0:
+        g = Event()
+        self.gates.append(g)
+        g.wait()
+      else:
+        gevent.sleep(ms / 1000.0)
+      ok = True
+    finally:
+      self.blocked -= 1
+      if not ok:
+        self.cut_short += 1
+
+  def release(self):
+    gs, self.gates = self.gates, []
+    for g in gs:
+      g.set()
+    return bool(gs)
+
   def on_join(self, member):
     d = self._d(member)
     self.ev.append({'e': 'Join', 'm': self._m(member), 'd': d})
+    self._block(self.bj, d)
     if d in self.rj:
       self.ev.append({'e': 'Raised', 'm': 0, 'd': 0})
       raise Driver.ConsumerError('join %s' % d)
@@ -195,6 +236,7 @@ class Driver(object):
   def on_leave(self, member):
     d = self._d(member)
     self.ev.append({'e': 'Leave', 'm': self._m(member), 'd': d})
+    self._block(self.bl, d)
     if d in self.rl:
       self.ev.append({'e': 'Raised', 'm': 0, 'd': 0})
       raise Driver.ConsumerError('leave %s' % d)
@@ -210,7 +252,9 @@ class Driver(object):
     return sorted(out)
 
   def quiescent(self):
-    return self.zk.pending() == 0
+    """Nothing in flight: no request pending and no consumer callback still running (a consumer whose
+    callback has not returned yet cannot have applied what comes after it)."""
+    return self.zk.pending() == 0 and self.blocked == 0
 
   def mark_q(self):
     if self.quiescent():
@@ -270,14 +314,37 @@ class Driver(object):
       if not zk.pending():
         return False
       busy = False
+      watched = zk.head()[2]
       op, path, outcome = zk.serve()
       if outcome == 'nonode' and op == 'get' and path != PATH:
         self.nonode_reads += 1
-      self.ev.append({'e': 'Serve', 'm': 0, 'd': 0})
+      # q / r: which request was answered and how (informational for ZkAbs; used by `witness`):
+      # ex / get / gc = exists, get, watched get_children of the path; ls = unwatched listing; rd = member read
+      q = ('rd' if path != PATH else 'ex' if op == 'exists' else 'get' if op == 'get'
+           else 'gc' if watched else 'ls')
+      # r: ok / no = the node was there / was not (NoNodeError, or None from exists) when the request was answered
+      there = outcome == 'ok' and (op != 'exists' or zk.srv_exists(path))
+      self.ev.append({'e': 'Serve', 'm': 0, 'd': 0, 'q': q, 'r': 'ok' if there else 'no'})
+    elif k == 'T':       # o[1] milliseconds of virtual time pass (timers fire in order)
+      self.loop.run_for(o[1] / 1000.0)
+    elif k == 'REL':     # the blocked consumer callbacks waiting for the script return
+      if not self.release():
+        return False
     elif k == 'Q':
+      # to quiescence: answer every request, let every blocked callback return (released, or its time passes)
       n = 0
-      while zk.pending():
-        self.op(['S'])
+      while zk.pending() or self.blocked:
+        if zk.pending():
+          self.op(['S'])
+        elif self.release():
+          self.settle()
+          self.mark_q()
+        elif self.loop.next_timer_at() is not None:
+          self.loop.run_until(self.loop.next_timer_at())
+          self.settle()
+          self.mark_q()
+        else:
+          raise RuntimeError('a consumer callback is blocked for ever')
         n += 1
         if n > 10000:
           raise RuntimeError('no quiescence')
@@ -293,11 +360,12 @@ class Driver(object):
   def settle(self):
     """Run the client's loop cascade to exhaustion.  The component has no timers today; if a
     refactoring adds short ones (debouncing, retry back-off) they are allowed to fire before
-    a quiescent point is declared (bounded: 200 expiries / one virtual hour)."""
+    a quiescent point is declared (bounded: 200 expiries / one virtual hour).  While a consumer callback is
+    blocked time passes only when the script says so (ops T, Q)."""
     loop = self.loop
     loop.run_until_idle()
     n = 0
-    while (self.zk.pending() == 0 and loop.next_timer_at() is not None and n < 200
+    while (self.zk.pending() == 0 and self.blocked == 0 and loop.next_timer_at() is not None and n < 200
            and loop.next_timer_at() <= self.t_start + 3600.0):
       loop.run_until(loop.next_timer_at())
       n += 1
@@ -318,11 +386,12 @@ class Driver(object):
       reqs.append([r.op, tgt, r.watch is not None])
     dw, cw = self.zk.armed(PATH)
     return {'nodes': nodes, 'members': members, 'watching': watching, 'qlen': qlen, 'reqs': reqs,
-            'cbq': self.zk.callbacks_queued(), 'dataW': dw, 'childW': cw}
+            'cbq': self.zk.callbacks_queued(), 'dataW': dw, 'childW': cw, 'blocked': self.blocked > 0}
 
 
 def _meta(d, loop):
-  return {'errors': [e[1:3] for e in loop.errors][:4], 'nonode_reads': d.nonode_reads, 'mid_ops': d.mid_ops}
+  return {'errors': [e[1:3] for e in loop.errors][:4], 'nonode_reads': d.nonode_reads, 'mid_ops': d.mid_ops,
+          'blocks': d.blocks, 'cut_short': d.cut_short}
 
 
 def _preload():
@@ -338,12 +407,13 @@ def run_case(script):
     return {'cfg': o['cfg'], 'ev': o['ev'], 'meta': o.get('meta')}
   loop = common.boot()
   d = Driver(loop, script['n'], script.get('rj', []), script.get('rl', []), script.get('endpoint'),
-             script.get('nv'))
+             script.get('nv'), script.get('bj'), script.get('bl'))
   d.mark_q()
   for o in script['ops']:
     d.op(o)
   d.op(['Q'])
-  return {'cfg': {'n': script['n'], 'nv': d.nvalues, 'rj': sorted(d.rj), 'rl': sorted(d.rl)}, 'ev': d.ev,
+  return {'cfg': {'n': script['n'], 'nv': d.nvalues, 'rj': sorted(d.rj), 'rl': sorted(d.rl),
+                  'bj': sorted(map(list, d.bj.items())), 'bl': sorted(map(list, d.bl.items()))}, 'ev': d.ev,
           'meta': _meta(d, loop)}
 
 
@@ -623,6 +693,84 @@ def _mid_read_deletions(thorough):
   return out
 
 
+def _blocking_callbacks(thorough):
+  """A consumer callback that BLOCKS (the library's own LoadBalancerSink callbacks wait for its initialisation):
+  the notification worker is parked inside on_join / on_leave for 1 s, 4.9 s, 5.1 s, 10 s, 60 s of virtual time or
+  until the script releases it.  Nothing can be delivered meanwhile and the consumer is not at a quiescent point
+  before the callback has returned; everything that happened meanwhile must be delivered afterwards.
+    kind     join: j members created at once (one listing), on_join of the first / middle / last value blocks;
+             leave: j members announced, all deleted at once, on_leave of one value blocks
+    during   tree changes while the callback is blocked (another member created / one deleted, with the client reading
+             or not; everything deleted and the path too), then time passes / the callback is released
+    after    a further change after the callback returned
+  thorough: also together with a raising callback."""
+  out = []
+  durs = [1000, 4900, 5100, 10000, 60000, -1]
+  for kind in ('join', 'leave'):
+    for j in ((1, 2, 3) if thorough else (1, 3)):
+      n = j + 1                      # one spare name for changes during / after the block
+      for d in range(1, j + 1):
+        for ms in durs:
+          start = [['PC'], ['Q']] + [['ZC', m] for m in range(1, j + 1)]
+          if kind == 'join':
+            start += [['S']] * (j + 1)              # listing + j reads: the worker is inside the callbacks now
+          else:
+            start += [['Q']] + [['ZD', m] for m in range(1, j + 1)] + [['S']]
+          left = list(range(1, j + 1)) if kind == 'join' else []
+          durings = [[], [['ZC', n]], [['ZC', n], ['S'], ['S']], [['ZC', n], ['S'], ['S'], ['ZD', n], ['S']]]
+          if left:
+            durings += [[['ZD', left[-1]], ['S']], [['ZD', m] for m in left] + [['PD'], ['S'], ['S'], ['S']]]
+          else:
+            durings += [[['PD'], ['S'], ['S'], ['S']]]
+          for during in durings:
+            if ms < 0:     # released by the script: after 6 s, (thorough) also at once
+              waits = [[['T', 6000], ['REL']]] + ([[['REL']]] if thorough else [])
+            else:          # its time passes at the quiescence request, (thorough) also half of it before
+              waits = [[]] + ([[['T', ms // 2]]] if thorough else [])
+            gone = any(o[0] == 'PD' for o in during)
+            spare = any(o == ['ZC', n] for o in during) and not any(o == ['ZD', n] for o in during)
+            afters = [[], [['PC'], ['ZC', n], ['Q']] if gone else [['ZD', n]] if spare else [['ZC', n], ['Q'], ['ZD', n]]]
+            for wait in waits:
+              for after in afters:
+                ops = start + during + wait + [['Q']] + after + [['Q']]
+                pols = [([], [])]
+                if thorough:
+                  pols += [([], [d]), ([d], []), ([], list(range(1, n + 1))), (list(range(1, n + 1)), [])]
+                for rj, rl in pols:
+                  sc = {'n': n, 'nv': n, 'rj': rj, 'rl': rl, 'ops': ops, 'endpoint': None}
+                  sc['bj' if kind == 'join' else 'bl'] = [[d, ms]]
+                  out.append(sc)
+  return out
+
+
+def _empty_path_recreations(thorough):
+  """An EMPTY path (its child watch still armed) is deleted and re-created faster than the client re-reads it.
+    history  no member ever / a member announced, deleted and settled
+    b        Serve steps between the last change before the deletion and the deletion (0, 1, 2, Q = settled; with
+             b < Q the start-up / the last listing is still in flight when the path goes away)
+    a        Serve steps between deletion and re-creation (0, 1, 2)
+    c        Serve steps after the re-creation before the first member is created (0, 1, 2, Q)
+  then one or two members are created, settled, one deleted again, settled.  No callback raises (thorough: also
+  single raising callbacks)."""
+  out = []
+  for hist in ('never', 'emptied'):
+    for b in (0, 1, 2, 'Q'):
+      for a in (0, 1, 2):
+        for c in (0, 1, 2, 'Q'):
+          for first in ((1,), (1, 2)):
+            ops = [['PC']]
+            if hist == 'emptied':
+              ops += [['Q'], ['ZC', 1], ['Q'], ['ZD', 1]]
+            ops += [['Q']] if b == 'Q' else [['S']] * b
+            ops += [['PD']] + [['S']] * a + [['PC']]
+            ops += [['Q']] if c == 'Q' else [['S']] * c
+            ops += [['ZC', m] for m in first] + [['Q'], ['ZD', 1], ['Q']]
+            pols = [([], [])] + ([([], [1]), ([1], [])] if thorough else [])
+            for rj, rl in pols:
+              out.append({'n': 2, 'nv': 2, 'rj': rj, 'rl': rl, 'ops': ops, 'endpoint': None})
+  return out
+
+
 # Weaker designs of the component (the unchanged code and partial repairs), as variants of the
 # code-shaped model.  TLC's counterexample for each is a history on which that design fails;
 # the tree under test must survive all of them (judged, like every trace, by ZkAbs).
@@ -640,6 +788,9 @@ _WEAKER = [
   # _members is non-empty; fails when the path is reported gone between the reads of the first members of a listing
   # (needs a listing of 4 members: worker and watcher advance alternately, the watcher needs 3 round trips)
   (['PD', 'VM', 'DW', 'LZ'], 'ZkServerSet_b4.cfg', False),
+  # "a wedged consumer must not hold up membership updates": callbacks run under a gevent.Timeout (a BaseException,
+  # not caught by `except Exception`): a callback that blocks too long kills the notification worker
+  (['PD', 'VM', 'DW', 'TO'], 'ZkServerSet_blk.cfg', False),
 ]
 
 
@@ -658,10 +809,12 @@ def _counterexample_scripts(tier):
     ops = []
     for m in re.finditer(r'^State \d+: <(\w+)(?:\(([^)]*)\))? line', r.stdout, re.M):
       name = m.group(1)
-      if name in _OPS:
+      if name == 'Expire':       # "the time allowed for a callback is up": a minute passes
+        ops.append(['T', 60000])
+      elif name in _OPS:
         ops.append([_OPS[name]] + ([int(m.group(2))] if m.group(2) else []))
     pol = {}
-    for v in ('rj', 'rl'):
+    for v in ('rj', 'rl', 'bj', 'bl'):
       mm = re.search(r'^/\\ %s = (\{[^}]*\})' % v, r.stdout, re.M)
       pol[v] = tlc.parse_tla(mm.group(1)) if mm else []
     n, nv = _cfg_consts(cfg)
@@ -670,6 +823,8 @@ def _counterexample_scripts(tier):
       o2 = [[o[0]] + ([n + 1 - o[1]] if swap else [o[1]]) if len(o) > 1 else list(o) for o in ops]
       out.append({'n': n, 'nv': nv, 'rj': [n + 1 - x if swap else x for x in pol['rj']],
                   'rl': [n + 1 - x if swap else x for x in pol['rl']], 'ops': o2, 'endpoint': None,
+                  'bj': [[n + 1 - x if swap else x, -1] for x in pol['bj']],
+                  'bl': [[n + 1 - x if swap else x, -1] for x in pol['bl']],
                   'origin': 'TLC counterexample of model variant %s' % ('+'.join(flags) or 'unrepaired')})
     return out
 
@@ -686,7 +841,8 @@ def cases(prop, tier, seed):
   thorough = tier != 'quick'
   n = 1000 if not thorough else 6000
   out = (list(_counterexample_scripts(tier)) + list(_systematic()) + list(_reregistrations())
-         + list(_mid_read_deletions(thorough)))
+         + list(_mid_read_deletions(thorough)) + list(_blocking_callbacks(thorough))
+         + list(_empty_path_recreations(thorough)))
   for i in range(n):
     if i % 3 == 2:
       out.append(_gen_churn(rng, [1, 2, 2, 3][(i // 3) % 4]))
@@ -712,8 +868,16 @@ def witness(prop, t, consumed, clause):
     parent_deleted / parent_recreated   the path was deleted (and created again) before the failure
     settled_before_recreate             a quiescent point lies between the last deletion of the path
                                         and its re-creation (the deletion was completely processed)
-    unsettled_recreate                  somewhere in the history the path was re-created with no quiescent
+    recreated_before_quiescence         somewhere in the history the path was re-created with no quiescent
                                         point since its deletion (the client had not caught up)
+    unsettled_recreate                  (= stale_children_watch; the name is the one known_findings.json uses) somewhere in
+                                        the history the path was re-created while the client had caught up with its
+                                        deletion only half: a listing of a ChildrenWatch had been answered NoNode for the
+                                        deleted path (that watch stops itself) and the DataWatch had not been told yet
+                                        (no exists -> None answered since the deletion), so _watching stays True and nothing
+                                        starts a new children watch.  A re-creation the client has not noticed at all (no
+                                        listing answered NoNode: e.g. an empty, fully watched path deleted and re-created at
+                                        once) or has noticed completely is not this situation.
     members_held_at_parent_delete       members the consumer held when the path was last deleted (0, 1, 2 = two or more)
     consumer_extra / consumer_missing   at the failing quiescent point the consumer holds a member that is
                                         not present / lacks a member that is present
@@ -742,16 +906,25 @@ def witness(prop, t, consumed, clause):
     if pc:
       w['parent_recreated'] = True
       w['settled_before_recreate'] = any(e['e'] == 'Q' for e in after[:pc[0]])
-  gone = settled = False
+  w['recreated_before_quiescence'] = False
+  gone = settled = lost = told = False
   for e in ev:
     if e['e'] == 'PDelete':
-      gone, settled = True, False
+      gone, settled, lost, told = True, False, False, False
     elif e['e'] == 'Q' and gone:
       settled = True
+    elif e['e'] == 'Serve' and gone:
+      if e.get('q') == 'gc' and e.get('r') == 'no':
+        lost = True
+      elif e.get('q') == 'ex' and e.get('r') == 'no':
+        told = True
     elif e['e'] == 'PCreate':
       if gone and not settled:
+        w['recreated_before_quiescence'] = True
+      if gone and lost and not told:
         w['unsettled_recreate'] = True
       gone = False
+  w['stale_children_watch'] = w['unsettled_recreate']
   last = ev[-1] if ev else None
   if last is not None and last['e'] == 'Q':
     present = set(last.get('present', []))
@@ -841,7 +1014,8 @@ def _spec_projection(st):
       reqs.append(list(_REQ_OF_PC[c['gl'][g]['pc']]))
   return {'nodes': list(c['nodes']), 'members': list(c['members']), 'watching': c['watching'],
           'qlen': len(c['nq']), 'reqs': reqs, 'cbq': len(c['cbq']), 'dataW': st['dataW'],
-          'childW': len(st['childW']), 'out': [[e['e'], e['m'], e['d']] for e in c['out']]}
+          'childW': len(st['childW']), 'blocked': c['nw']['pc'] == 'cb',
+          'out': [[e['e'], e['m'], e['d']] for e in c['out']]}
 
 
 def _features(st):
@@ -860,6 +1034,10 @@ def _features(st):
     f.add('worker_backlog')
   if 'NW' in c['reqs'] and len(c['reqs']) > 1:
     f.add('worker_read_overlaps_watcher')
+  if c['nw']['pc'] == 'cb':
+    f.add('consumer_callback_blocked')
+    if c['reqs'] or c['nq'] or c['cbq']:
+      f.add('client_busy_while_callback_blocked')
   if st['viol'] != 'ok':
     f.add('model_violation')
   return f
@@ -883,10 +1061,11 @@ def _compact(states_actions, consts):
   for (name, params, st) in states_actions:
     feat |= _features(st)
     steps.append([name, list(params), _spec_projection(st)])
-  return {'n': n, 'nv': nv, 'rj': list(st0['rj']), 'rl': list(st0['rl']), 'steps': steps, 'feat': sorted(feat)}
+  return {'n': n, 'nv': nv, 'rj': list(st0['rj']), 'rl': list(st0['rl']), 'bj': list(st0.get('bj', [])),
+          'bl': list(st0.get('bl', [])), 'steps': steps, 'feat': sorted(feat)}
 
 
-_OPS = {'PCreate': 'PC', 'PDelete': 'PD', 'ZCreate': 'ZC', 'ZDelete': 'ZD', 'Serve': 'S'}
+_OPS = {'PCreate': 'PC', 'PDelete': 'PD', 'ZCreate': 'ZC', 'ZDelete': 'ZD', 'Serve': 'S', 'Return': 'REL'}
 
 
 def _replay_one(beh):
@@ -894,7 +1073,9 @@ def _replay_one(beh):
   of the real objects with the spec state after every step."""
   loop = common.boot()
   del loop.errors[:]
-  d = Driver(loop, beh['n'], beh['rj'], beh['rl'], None, beh.get('nv'))
+  # a blocking callback of the model blocks until action Return: a gate the replay releases
+  d = Driver(loop, beh['n'], beh['rj'], beh['rl'], None, beh.get('nv'),
+             [[x, -1] for x in beh.get('bj', [])], [[x, -1] for x in beh.get('bl', [])])
   drift = None
   steps = 0
 
@@ -921,7 +1102,8 @@ def _replay_one(beh):
     if drift is None:
       drift = compare(name, params, exp, before)
   d.op(['Q'])
-  return {'cfg': {'n': beh['n'], 'nv': d.nvalues, 'rj': sorted(d.rj), 'rl': sorted(d.rl)}, 'ev': d.ev, 'steps': steps,
+  return {'cfg': {'n': beh['n'], 'nv': d.nvalues, 'rj': sorted(d.rj), 'rl': sorted(d.rl),
+                  'bj': sorted(map(list, d.bj.items())), 'bl': sorted(map(list, d.bl.items()))}, 'ev': d.ev, 'steps': steps,
           'drift': drift, 'meta': _meta(d, loop), 'proj': d.projection() is not None}
 
 
@@ -1035,6 +1217,11 @@ def replay_behaviours(prop, tier, seed):
   quick = tier == 'quick'
   behs, gsum = _graph_behaviours(env, 'ZkServerSet_cov.cfg' if quick else 'ZkServerSet_cov7.cfg',
                                  100000, int(seed))
+  # the same with blocking consumer callbacks (policy of size 1; shorter histories)
+  behs2, gsum2 = _graph_behaviours(env, 'ZkServerSet_covb.cfg' if quick else 'ZkServerSet_covb5.cfg',
+                                   100000, int(seed))
+  behs += behs2
+  gsum = dict((k, gsum[k] + gsum2[k]) for k in gsum)
   r, sims = tlc.simulate_behaviours('ZkServerSet', 'ZkServerSet_sim.cfg', num=300 if quick else 3000, depth=40,
                                     seed=int(seed) + 1, timeout=900, env=env)
   if not sims:
